@@ -382,11 +382,17 @@ func c04Iteration(c *Ctx, impls []*types.Named, rule string) {
 		seen[fe] = true
 		n++
 		name := funcName(fe)
+		// the walk may live in a helper the rules do not know, to which ForEach hands its callback as it is (a walk
+		// shared with Bins): the obligations are the helper's then
+		cbParam := ssa.Value(fe.Params[1])
+		if w, k := walkDelegate(fe, 1); w != nil {
+			fe, cbParam = w, ssa.Value(w.Params[k])
+		}
 		nth := 0
 		for _, b := range fe.Blocks {
 			for _, in := range b.Instrs {
 				call, ok := in.(*ssa.Call)
-				if !ok || call.Common().Value != ssa.Value(fe.Params[1]) {
+				if !ok || call.Common().Value != cbParam {
 					continue
 				}
 				nth++
@@ -531,7 +537,53 @@ func c04Iteration(c *Ctx, impls []*types.Named, rule string) {
 	// twins: paginated ForEach vs Bins
 	if pr := c.paginated(); pr.err == "" {
 		fe, bf := c.P.DeclaredMethod(pr.typ, "ForEach"), c.P.DeclaredMethod(pr.typ, "Bins")
+		// one shared walk: ForEach hands its callback to a helper, and the producer of Bins calls the same helper with
+		// a callback that sends Bin{index, count} for what it is given and never stops — the two agree by construction
+		sharedWalk := false
 		if fe != nil && bf != nil && len(bf.AnonFuncs) == 1 {
+			if w, _ := walkDelegate(fe, 1); w != nil {
+				prod := bf.AnonFuncs[0]
+				for _, b := range prod.Blocks {
+					for _, in := range b.Instrs {
+						call, ok := in.(*ssa.Call)
+						if !ok || call.Common().Value != ssa.Value(w) {
+							continue
+						}
+						for _, arg := range call.Common().Args {
+							mc, ok := arg.(*ssa.MakeClosure)
+							if !ok {
+								continue
+							}
+							cb := mc.Fn.(*ssa.Function)
+							cps, _ := execPlain(c, cb, nil, 1)
+							okCB := len(cps) == 1 && len(cb.Params) == 2
+							if okCB {
+								p := cps[0]
+								var idx, cnt *Term
+								sends := 0
+								for _, e := range p.Effects {
+									if e.Kind == "store" && e.Addr.Op == "field" && e.Addr.Sym == "index" {
+										idx = e.Val
+									}
+									if e.Kind == "store" && e.Addr.Op == "field" && e.Addr.Sym == "count" {
+										cnt = e.Val
+									}
+									if e.Kind == "send" {
+										sends++
+									}
+								}
+								okCB = sends == 1 && idx != nil && cnt != nil && idx.isParam(0) && cnt.isParam(1) && len(p.RetT) == 1 && p.RetT[0].isConst("false")
+							}
+							sharedWalk = okCB
+						}
+					}
+				}
+			}
+		}
+		if sharedWalk {
+			c.R.okay(rule, "BufferedPaginatedStore/ForEach-vs-Bins", funcName(fe), c.fpos(fe), "the two iterators over (sorted buffer ⊕ pages) yield the same (index, count) terms under the same path conditions", "one shared walk; the producer sends what it is given and never stops")
+		}
+		if fe != nil && bf != nil && len(bf.AnonFuncs) == 1 && !sharedWalk {
 			condSig := func(p *Path, skip func(t *Term) bool) string {
 				var parts []string
 				for _, cd := range p.Conds {
@@ -670,6 +722,12 @@ func c04Extremes(c *Ctx, impls []*types.Named) {
 			}
 			seen[f] = true
 			n++
+			// single pass with a "found" flag over a map: the flag is false before the range, raised only inside it, and
+			// the error is returned exactly on the branch where it is still false — empty ⇔ no key was seen
+			if foundFlagEmptiness(f) {
+				c.R.okay(rule, funcName(f)+"/error-iff-empty", funcName(f), c.fpos(f), "the undefined-index error is returned exactly when the store is empty", "found-flag form: error exactly when the range saw no key")
+				continue
+			}
 			paths, _ := exec(c, f, nil, 1)
 			bad := ""
 			nE, nV := 0, 0
@@ -961,6 +1019,40 @@ func c04PaginatedEmptiness(c *Ctx, pr *paginatedRoles) {
 		}
 		return outer
 	}
+	// the "pages unused" marker: the constant Clear writes into an int field of the store; a return taken under
+	// `that field == marker` needs no scan (every page slot is then empty: only the page accessor moves the field away
+	// from the marker, before it gives a page a length — C04-D9 makes it the only writer)
+	markField, markConst := "", ""
+	if clr := c.P.DeclaredMethod(pr.typ, "Clear"); clr != nil {
+		tcc := newTermCtx(c.P)
+		for _, b := range clr.Blocks {
+			for _, in := range b.Instrs {
+				if st, ok := in.(*ssa.Store); ok {
+					at, vt := tcc.Of(st.Addr), tcc.Of(st.Val)
+					if at.Op == "field" && at.Args[0].isRecv() && vt.Op == "const" && len(vt.Sym) > 8 {
+						markField, markConst = at.Sym, vt.Sym
+					}
+				}
+			}
+		}
+	}
+	unusedExit := func(fn *ssa.Function, b *ssa.BasicBlock) bool {
+		id := b.Idom()
+		if id == nil || markField == "" {
+			return false
+		}
+		iff, ok := id.Instrs[len(id.Instrs)-1].(*ssa.If)
+		if !ok {
+			return false
+		}
+		t := newTermCtx(c.P).Of(iff.Cond)
+		if !(t.isBin("==") || t.isBin("!=")) {
+			return false
+		}
+		isMark := isRecvField(t.Args[0], markField) && t.Args[1].isConst(markConst) || isRecvField(t.Args[1], markField) && t.Args[0].isConst(markConst)
+		taken := id.Succs[0] == b
+		return isMark && taken == t.isBin("==")
+	}
 	if f := c.P.DeclaredMethod(pr.typ, "IsEmpty"); c.mustFunc(rule, f, "BufferedPaginatedStore.IsEmpty") {
 		hdr := fullScan(f)
 		tc := newTermCtx(c.P)
@@ -1006,7 +1098,7 @@ func c04PaginatedEmptiness(c *Ctx, pr *paginatedRoles) {
 				}
 			case r.isConst("true"):
 				nTrue++
-				if hdr == nil || !hdr.Dominates(b) {
+				if (hdr == nil || !hdr.Dominates(b)) && !unusedExit(f, b) {
 					bad = "answers true without having scanned every line of every page"
 				}
 			case (r.isBin("==") || r.isBin("<=")) && (isMethodCall(r.Args[0], "TotalCount") && r.Args[1].isConst("0") || isMethodCall(r.Args[1], "TotalCount") && r.Args[0].isConst("0")):
@@ -1051,7 +1143,7 @@ func c04PaginatedEmptiness(c *Ctx, pr *paginatedRoles) {
 		}
 		okRet := true
 		for _, b := range f.Blocks {
-			if _, ok := b.Instrs[len(b.Instrs)-1].(*ssa.Return); ok && (hdr == nil || !hdr.Dominates(b)) {
+			if _, ok := b.Instrs[len(b.Instrs)-1].(*ssa.Return); ok && (hdr == nil || !hdr.Dominates(b)) && !unusedExit(f, b) {
 				okRet = false
 			}
 		}
@@ -1403,6 +1495,26 @@ func c04SparseFolds(c *Ctx, rule string) {
 						}
 					}
 				}
+				// … or the first key always replaces it: a "found" flag, false before the range, sends the first key to the
+				// very block that carries the key (`if !found || key > running { found = true; running = key }`)
+				if !okInit && foundFlagEmptiness(f) {
+					for _, fb := range f.Blocks {
+						fi, ok := fb.Instrs[len(fb.Instrs)-1].(*ssa.If)
+						if !ok {
+							continue
+						}
+						switch v := fi.Cond.(type) {
+						case *ssa.Phi:
+							if bt, ok := v.Type().Underlying().(*types.Basic); ok && bt.Kind() == types.Bool && fb.Succs[1] == taken {
+								okInit = true
+							}
+						case *ssa.UnOp:
+							if _, isPhi := v.X.(*ssa.Phi); isPhi && v.Op == token.NOT && fb.Succs[0] == taken {
+								okInit = true
+							}
+						}
+					}
+				}
 				if !okInit {
 					bad = firstNonEmpty(bad, "the running extreme does not start at the opposite end of the int range")
 				}
@@ -1538,38 +1650,62 @@ func c04PaginatedExtremes(c *Ctx, pr *paginatedRoles, rule string) {
 					if P.Coef["first"] == 0 {
 						delete(P.Coef, "first")
 					}
-					// lower: P − first is a non-negative constant, or `first ≤ P` was taken
-					lowD := linCombine(P, &Linear{Coef: map[string]int{"first": 1}, Atoms: map[string]*Term{}, Exact: true}, -1)
-					lowerOK := false
-					if k, isC := isConstLin(lowD); isC && k >= 0 {
-						lowerOK = true
-					}
-					// upper: P − first − npages is a negative constant, or `P < first + npages` was taken
-					upD := linCombine(lowD, &Linear{Coef: map[string]int{"npages": 1}, Atoms: map[string]*Term{}, Exact: true}, -1)
-					upperOK := false
-					if k, isC := isConstLin(upD); isC && k < 0 {
-						upperOK = true
-					}
+					// facts of the path up to the read, each as a linear form known to be ≥ 0 (integers: a < b is b − a − 1 ≥ 0)
+					var facts []*Linear
 					for _, cd := range p.Conds {
-						if cd.Seq > ld.Seq || !cd.Taken {
+						if cd.Seq > ld.Seq {
 							continue
 						}
 						t := cd.Term
-						if len(t.Args) != 2 {
+						if len(t.Args) != 2 || !(t.isBin("<") || t.isBin("<=")) {
 							continue
 						}
-						d := linCombine(canonKey(t.Args[0]), canonKey(t.Args[1]), -1) // a − b
+						a, b := canonKey(t.Args[0]), canonKey(t.Args[1])
+						var f *Linear
 						switch {
-						case t.isBin("<"): // a < b: want P < first+npages  ⇒  a − b == P − first − npages
-							if e := linCombine(d, linCombine(P, &Linear{Coef: map[string]int{"first": 1, "npages": 1}, Atoms: map[string]*Term{}, Exact: true}, -1), -1); len(e.Coef) == 0 && e.Const == 0 {
-								upperOK = true
-							}
-						case t.isBin("<="): // a ≤ b: want first ≤ P ⇒ a − b == first − P
-							if e := linCombine(d, linCombine(&Linear{Coef: map[string]int{"first": 1}, Atoms: map[string]*Term{}, Exact: true}, P, -1), -1); len(e.Coef) == 0 && e.Const == 0 {
-								lowerOK = true
+						case t.isBin("<") && cd.Taken: // a < b
+							f = linCombine(b, a, -1)
+							f.Const--
+						case t.isBin("<=") && cd.Taken: // a ≤ b
+							f = linCombine(b, a, -1)
+						case t.isBin("<") && !cd.Taken: // b ≤ a
+							f = linCombine(a, b, -1)
+						default: // !(a ≤ b): b < a
+							f = linCombine(a, b, -1)
+							f.Const--
+						}
+						facts = append(facts, f)
+					}
+					isNonNegConst := func(l *Linear) bool {
+						for _, v := range l.Coef {
+							if v != 0 {
+								return false
 							}
 						}
+						return l.Const >= 0
 					}
+					proves := func(q *Linear) bool { // q ≥ 0 from the form itself, one fact, or the sum of two
+						if isNonNegConst(q) {
+							return true
+						}
+						for i, f1 := range facts {
+							r1 := linCombine(q, f1, -1)
+							if isNonNegConst(r1) {
+								return true
+							}
+							for _, f2 := range facts[i+1:] {
+								if isNonNegConst(linCombine(r1, f2, -1)) {
+									return true
+								}
+							}
+						}
+						return false
+					}
+					// lower: P − first ≥ 0; upper: first + npages − P − 1 ≥ 0
+					lowD := linCombine(P, &Linear{Coef: map[string]int{"first": 1}, Atoms: map[string]*Term{}, Exact: true}, -1)
+					lowerOK := proves(lowD)
+					upQ := linCombine(&Linear{Coef: map[string]int{"first": 1, "npages": 1}, Atoms: map[string]*Term{}, Exact: true, Const: -1}, P, -1)
+					upperOK := proves(upQ)
 					if !lowerOK || !upperOK {
 						bad = firstNonEmpty(bad, fmt.Sprintf("a slot of the page table is read at page number %s without the evidence first ≤ P (%v) and P < first + len(pages) (%v) on [%s]", shorten(a.Args[1].Key(), 70), lowerOK, upperOK, pathSig(p)))
 					}
@@ -1604,11 +1740,20 @@ func c04PaginatedExtremes(c *Ctx, pr *paginatedRoles, rule string) {
 		// the walk may stop early at the page of the buffered extreme — but that page itself is still scanned: the
 		// page number is compared with `index >> log2` non-strictly (a strict comparison skips the page that may hold
 		// a bin beyond the buffered extreme)
+		inLoop := map[*ssa.BasicBlock]bool{}
+		for _, comp := range loopSCCs(f) {
+			for _, b := range comp {
+				inLoop[b] = true
+			}
+		}
 		for _, p := range paths {
 			for _, cd := range p.Conds {
 				t := cd.Term
 				if !t.isBin("<") || len(t.Args) != 2 {
 					continue
+				}
+				if cd.If == nil || !inLoop[cd.If.Block()] {
+					continue // a comparison outside the walk (e.g. clamping a precomputed bound) decides nothing about a page
 				}
 				isPageOf := func(x *Term) bool {
 					x = stripVers(x)
@@ -1633,4 +1778,132 @@ func c04PaginatedExtremes(c *Ctx, pr *paginatedRoles, rule string) {
 			map[bool]string{true: "slots read only inside the table; every page scanned from line 0", false: "slots read only inside the table; every page scanned from its last line"}[side.min],
 			firstNonEmpty(bad, fmt.Sprintf("%d slot read(s), %d page scan(s) on %d path(s)", nSlot, nLine, len(paths))))
 	}
+}
+
+// walkDelegate: f does not call its function-typed parameter number cb itself but hands it, unchanged, to exactly one
+// function the rules do not know by name (a new helper); returns that helper and the index of the parameter there.
+func walkDelegate(f *ssa.Function, cb int) (*ssa.Function, int) {
+	if f == nil || cb >= len(f.Params) {
+		return nil, 0
+	}
+	var w *ssa.Function
+	wk := 0
+	for _, b := range f.Blocks {
+		for _, in := range b.Instrs {
+			call, ok := in.(*ssa.Call)
+			if !ok {
+				continue
+			}
+			if call.Common().Value == ssa.Value(f.Params[cb]) {
+				return nil, 0 // calls the callback itself
+			}
+			if g, ok := call.Common().Value.(*ssa.Function); ok && inlineNewHelpers(g) && len(g.Blocks) > 0 {
+				for k, a := range call.Common().Args {
+					if a == ssa.Value(f.Params[cb]) {
+						if w != nil && w != g {
+							return nil, 0
+						}
+						w, wk = g, k
+					}
+				}
+			}
+		}
+	}
+	return w, wk
+}
+
+// foundFlagEmptiness: f ranges over a map, keeps a bool that starts false and is only ever set to true inside the
+// range body, and returns a non-nil error exactly on the branch where that bool is false after the range.
+func foundFlagEmptiness(f *ssa.Function) bool {
+	if f == nil {
+		return false
+	}
+	inRange := map[*ssa.BasicBlock]bool{}
+	for _, comp := range loopSCCs(f) {
+		hasNext := false
+		for _, b := range comp {
+			for _, in := range b.Instrs {
+				if _, ok := in.(*ssa.Next); ok {
+					hasNext = true
+				}
+			}
+		}
+		if hasNext {
+			for _, b := range comp {
+				inRange[b] = true
+			}
+		}
+	}
+	if len(inRange) == 0 {
+		return false
+	}
+	for _, b := range f.Blocks {
+		if inRange[b] {
+			continue
+		}
+		iff, ok := b.Instrs[len(b.Instrs)-1].(*ssa.If)
+		if !ok {
+			continue
+		}
+		var flag *ssa.Phi
+		neg := false
+		switch v := iff.Cond.(type) {
+		case *ssa.Phi:
+			flag = v
+		case *ssa.UnOp:
+			if p, ok := v.X.(*ssa.Phi); ok && v.Op == token.NOT {
+				flag, neg = p, true
+			}
+		}
+		if flag == nil {
+			continue
+		}
+		// every value the flag can take: false from outside the range, true (or itself) from inside
+		okFlag := true
+		var seen = map[*ssa.Phi]bool{}
+		var check func(p *ssa.Phi)
+		check = func(p *ssa.Phi) {
+			if seen[p] {
+				return
+			}
+			seen[p] = true
+			for i, e := range p.Edges {
+				pred := p.Block().Preds[i]
+				switch v := e.(type) {
+				case *ssa.Const:
+					isTrue := v.Value != nil && v.Value.String() == "true"
+					if isTrue && !inRange[pred] || !isTrue && inRange[pred] && false {
+						okFlag = false
+					}
+				case *ssa.Phi:
+					check(v)
+				default:
+					okFlag = false
+				}
+			}
+		}
+		check(flag)
+		if !okFlag {
+			continue
+		}
+		// the branch on which the flag is false returns a non-nil error; the other one returns nil
+		falseSucc, trueSucc := b.Succs[1], b.Succs[0]
+		if neg {
+			falseSucc, trueSucc = b.Succs[0], b.Succs[1]
+		}
+		retErr := func(blk *ssa.BasicBlock) int { // +1 nil error, −1 non-nil, 0 unknown
+			r, ok := blk.Instrs[len(blk.Instrs)-1].(*ssa.Return)
+			if !ok || len(r.Results) != 2 {
+				return 0
+			}
+			if k, ok := r.Results[1].(*ssa.Const); ok && k.IsNil() {
+				return 1
+			}
+			return -1
+		}
+		if retErr(falseSucc) == -1 && retErr(trueSucc) == 1 {
+			return true
+		}
+	}
+	return false
 }
